@@ -65,7 +65,7 @@ CONFIGS = [('0', 'fwd'), ('1', 'fwd'), ('2', 'rev'), ('3', 'shuffle'), ('random'
 
 def plan(tier, seed):
     if tier == 'quick':
-        return {'n': 32, 'deadline': 55, 'case_timeout': 200,
+        return {'n': 32, 'deadline': 150, 'case_timeout': 200,
                 'floor': {'distinct_nontrivial': 200, 'programs': 600, 'process_runs': 150, 'hashes_compared': 10000}}
     return {'n': 640, 'deadline': 560, 'case_timeout': 200,
             'floor': {'distinct_nontrivial': 4000, 'programs': 12000, 'process_runs': 3000, 'hashes_compared': 200000}}
